@@ -91,4 +91,68 @@ theorem runs_uniform (cs : List (Cap α)) : ∀ r ∈ runs cs, ∀ y ∈ r.2, y.
 theorem merged_neighbours_differ (brk : α) (cs : List (Cap α)) : AdjDistinct ((runs cs).map (specCap brk)) :=
   runs_adjDistinct brk cs
 
+/-! ### adjust: consequences of `adjust_affine_filter` stated clause by clause (order kept, nodes untouched, exactly the negative starts dropped) -/
+
+/-- order kept, nodes untouched: the node lists of the surviving captions are a subsequence of the input's -/
+theorem adjust_nodes_sublist (skew off : Rat) (cs : List (Cap α)) :
+    ((adjust skew off cs).map (·.nodes)).Sublist (cs.map (·.nodes)) := by
+  rw [adjust_affine_filter]
+  have h : cs.map (·.nodes) = (cs.map (retime skew off)).map (·.nodes) := by
+    simp [List.map_map, Function.comp_def, retime]
+  rw [h]
+  exact (List.filter_sublist).map _
+
+/-- membership: a caption survives iff its new start is not negative -/
+theorem adjust_mem_iff (skew off : Rat) (cs : List (Cap α)) (c' : Cap α) :
+    c' ∈ adjust skew off cs ↔ ∃ c ∈ cs, 0 ≤ c.start * skew + off ∧ c' = retime skew off c := by
+  rw [adjust_affine_filter]
+  simp only [List.mem_filter, List.mem_map, decide_eq_true_eq]
+  constructor
+  · rintro ⟨⟨c, hc, rfl⟩, h⟩; exact ⟨c, hc, h, rfl⟩
+  · rintro ⟨c, hc, h, rfl⟩; exact ⟨⟨c, hc, rfl⟩, h⟩
+
+/-- the number of surviving captions is the number of captions whose new start is not negative -/
+theorem adjust_length (skew off : Rat) (cs : List (Cap α)) :
+    (adjust skew off cs).length = cs.countP (fun c => decide (0 ≤ c.start * skew + off)) := by
+  rw [adjust_affine_filter, List.filter_map, List.length_map, List.countP_eq_length_filter]
+  rfl
+
+/-- durations scale by the skew, whatever the offset -/
+theorem retime_duration (skew off : Rat) (c : Cap α) :
+    (retime skew off c).stop - (retime skew off c).start = (c.stop - c.start) * skew := by
+  simp only [retime]; grind
+
+/-- nothing is dropped when no start becomes negative; in particular for skew ≥ 0, offset ≥ 0 -/
+theorem adjust_none_dropped (skew off : Rat) (cs : List (Cap α)) (hs : 0 ≤ skew) (ho : 0 ≤ off)
+    (h : ∀ c ∈ cs, 0 ≤ c.start) : adjust skew off cs = cs.map (retime skew off) := by
+  rw [adjust_affine_filter, List.filter_eq_self]
+  intro c' hc'
+  obtain ⟨c, hc, rfl⟩ := List.mem_map.mp hc'
+  have := Rat.mul_nonneg (h c hc) hs
+  simp only [retime]; grind
+
+/-- a non-negative skew keeps captions sorted by start -/
+theorem adjust_keeps_sorted (skew off : Rat) (cs : List (Cap α)) (hs : 0 ≤ skew)
+    (h : cs.Pairwise (fun a b => a.start ≤ b.start)) :
+    (adjust skew off cs).Pairwise (fun a b => a.start ≤ b.start) := by
+  rw [adjust_affine_filter]
+  apply List.Pairwise.filter
+  rw [List.pairwise_map]
+  apply h.imp
+  intro a b hab
+  simp only [retime]
+  have := Rat.mul_le_mul_of_nonneg_right hab hs
+  grind
+
+/-- skew 1, offset 0 on captions with non-negative starts is the identity -/
+theorem adjust_identity (cs : List (Cap α)) (h : ∀ c ∈ cs, 0 ≤ c.start) : adjust 1 0 cs = cs := by
+  rw [adjust_none_dropped 1 0 cs (by decide) (by decide) h]
+  conv => rhs; rw [← List.map_id cs]
+  apply List.map_congr_left
+  intro c _
+  simp [retime, Rat.mul_one, Rat.add_zero]
+
+/-- corner: everything dropped -/
+example : adjust (1/2) (-10) [⟨1, 2, [7]⟩, (⟨3, 4, [9]⟩ : Cap Nat)] = [] := by decide +kernel
+example : adjust 2 (-3) [⟨1, 2, [7]⟩, (⟨3, 4, [9]⟩ : Cap Nat)] = [⟨3, 5, [9]⟩] := by decide +kernel
 end PcVerif.Props.C19
